@@ -106,7 +106,7 @@ namespace detail
 				return Tmp + (Multiple - (Tmp % Multiple));
 			}
 			else
-				return Source + (-Source % Multiple);
+				return Source - (Source % Multiple);	// == Source + (-Source % Multiple) without negating the most negative value
 		}
 	};
 
